@@ -18,6 +18,8 @@ Section EditTheorems.
   Theorem edit_script_run_spec : forall lhs rhs,
       exists L es,
         lcs_func T eqb lhs rhs = Some L /\
+        CommonSubseq eqb L lhs rhs /\
+        (forall t, CommonSubseq eqb t lhs rhs -> (length t <= length L)%nat) /\
         edit_script_run eqb lhs rhs = EOk es /\
         ValidScript eqb lhs rhs es /\
         kept (expand lhs es) = length L /\
@@ -33,6 +35,7 @@ Section EditTheorems.
       as (es & Hrun & Hv & Hk & Hc & Ha & He).
     exists L, es. unfold edit_script_run. rewrite HL.
     repeat split; try assumption.
+    - intros t [H1 H2]. exact (Hopt t H1 H2).
     - intros es' Hv'. rewrite Hk. exact (Valid_kept_le T eqb eqb_refl lhs rhs L Hopt es' Hv').
     - intros Heq.
       pose proof (of_lcs_equal_inputs T eqb eqb_refl eqb_sym eqb_trans lhs rhs L Hl Hr Hopt Heq) as H0.
@@ -43,7 +46,7 @@ Section EditTheorems.
   Theorem edit_script_run_ok : forall lhs rhs,
       edit_script_run eqb lhs rhs = EOk (edit_script_func eqb lhs rhs).
   Proof.
-    intros lhs rhs. destruct (edit_script_run_spec lhs rhs) as (L & es & _ & Hrun & _).
+    intros lhs rhs. destruct (edit_script_run_spec lhs rhs) as (L & es & _ & _ & _ & Hrun & _).
     unfold edit_script_func. now rewrite Hrun.
   Qed.
 
@@ -56,7 +59,7 @@ Section EditTheorems.
         canonical es = true /\ alternating es = true /\
         (es = [] <-> EqLists eqb lhs rhs).
   Proof.
-    intros lhs rhs. destruct (edit_script_run_spec lhs rhs) as (L & es & HL & Hrun & H).
+    intros lhs rhs. destruct (edit_script_run_spec lhs rhs) as (L & es & HL & _ & _ & Hrun & H).
     exists L. split; [assumption|]. unfold edit_script_func. rewrite Hrun. exact H.
   Qed.
 
